@@ -42,7 +42,38 @@ def str_eq(a, b):
         return a.attrs["id"] == b.attrs["id"]
     if "z3s" in a.attrs or "z3s" in b.attrs:
         return to_z3s(a) == to_z3s(b)
+    for x, y in ((a, b), (b, a)):
+        if "atoms" in x.attrs and y.const is not None:
+            r = _atoms_eq_const(x.attrs["atoms"], y.const)
+            if r is not None:
+                return r
     raise MirUnsupported("string equality between %r and %r" % (a, b))
+
+
+def _atoms_eq_const(atoms, text):
+    """structured string (optional sign, literal pieces, k-digit numbers of concrete width) against a constant: segment by segment"""
+    def rec(i, pos):
+        if i == len(atoms):
+            return z3.BoolVal(pos == len(text))
+        at = atoms[i]
+        if at[0] == "lit":
+            if text[pos:pos + len(at[1])] != at[1]:
+                return z3.BoolVal(False)
+            return rec(i + 1, pos + len(at[1]))
+        if at[0] == "digits" and isinstance(at[2], int):
+            seg = text[pos:pos + at[2]]
+            if len(seg) != at[2] or not seg.isdigit():
+                return z3.BoolVal(False)
+            r = rec(i + 1, pos + at[2])
+            return None if r is None else z3.And(at[1] == int(seg), r)
+        if at[0] == "sign":
+            with_minus = rec(i + 1, pos + 1) if text[pos:pos + 1] == "-" else z3.BoolVal(False)
+            without = rec(i + 1, pos)
+            if with_minus is None or without is None:
+                return None
+            return z3.If(at[1], with_minus, without)
+        return None
+    return rec(0, 0)
 
 
 def to_z3s(s):
